@@ -241,6 +241,25 @@ class Program:
                             raise AnalysisError(f'{rel}: does not parse: {e}')
                         _PARSE_CACHE[ck_] = tree
                 self.modules[name] = Module(name, path, rel, source, tree, is_pkg)
+        # files that exist only in the overrides (a patch that adds a module)
+        known_rel = {m.rel for m in self.modules.values()}
+        for rel, source in sorted(self.overrides.items()):
+            if rel in known_rel or not rel.endswith('.py') or not rel.startswith(self.pkg + os.sep):
+                continue
+            parts = rel[:-3].split(os.sep)
+            is_pkg = parts[-1] == '__init__'
+            if is_pkg:
+                parts = parts[:-1]
+            name = '.'.join(parts)
+            path = os.path.join(self.repo, rel)
+            if rel in self.tree_overrides:
+                tree = self.tree_overrides[rel]
+            else:
+                try:
+                    tree = ast.parse(source, filename=path)
+                except SyntaxError as e:
+                    raise AnalysisError(f'{rel}: does not parse: {e}')
+            self.modules[name] = Module(name, path, rel, source, tree, is_pkg)
         for m in self.modules.values():
             self._index_module(m)
 
